@@ -167,6 +167,20 @@ func (b Service) VerifySessionV1TokenMessage(m *protosession.SessionToken, reqVe
 		return session.Object{}, err
 	}
 
+	// the cache is shared with the object validation which stores verdicts on
+	// the token's signature only, so nothing bound to the current epoch can be
+	// a part of the cached result
+	currentEpoch, err := b.nm.Epoch()
+	if err != nil {
+		return session.Object{}, errors.New("can't fetch current epoch")
+	}
+	if sToken.ExpiredAt(currentEpoch) {
+		return session.Object{}, apistatus.ErrSessionTokenExpired
+	}
+	if !sToken.ValidAt(currentEpoch) {
+		return session.Object{}, fmt.Errorf("%s: token is invalid at %d epoch)", invalidRequestMessage, currentEpoch)
+	}
+
 	if err := b.verifySessionTokenAgainstRequest(sToken, reqVerb, reqCnr, reqObj); err != nil {
 		return session.Object{}, err
 	}
@@ -196,17 +210,6 @@ func (b Service) decodeAndVerifySessionTokenCommon(m *protosession.SessionToken,
 	var token session.Object
 	if err := token.FromProtoMessage(m); err != nil {
 		return token, fmt.Errorf("invalid session token: %w", err)
-	}
-
-	currentEpoch, err := b.nm.Epoch()
-	if err != nil {
-		return token, errors.New("can't fetch current epoch")
-	}
-	if token.ExpiredAt(currentEpoch) {
-		return token, apistatus.ErrSessionTokenExpired
-	}
-	if !token.ValidAt(currentEpoch) {
-		return token, fmt.Errorf("%s: token is invalid at %d epoch)", invalidRequestMessage, currentEpoch)
 	}
 
 	body, err := iprotobuf.GetFirstBytesField(mb)
